@@ -20,7 +20,7 @@ LEMMAS = [dict(
            ])]
 
 
-def bounded(check):
+def _bounded0(check):
     """bounded stand-in for `_rpm_vercmp == S` and for S's order properties (labelled bounded, never counted as proved)"""
     maxlen = 3 if check.tier == "quick" else 4
     here = os.path.dirname(os.path.dirname(os.path.abspath(__file__)))
@@ -49,3 +49,8 @@ NOT_CARRIED = ["_rpm_vercmp == S for ALL strings: layer 2 (array-encoded proof o
                "bounded exhaustive comparison (labelled bounded) - quick: length <= 3, thorough: length <= 4",
                "transitivity beyond the bounded alphabet (the property itself bounds the triple claim)",
                "that S is RPM's algorithm: a hand transliteration of rpmvercmp.c (trusted), agreeing with the real function on every bounded pair"]
+
+
+def bounded(check):
+    from props._xcheck import xcheck
+    return list(_bounded0(check)) + [xcheck(check, ["rpm"], "rpm")]
